@@ -818,7 +818,7 @@ class ExprC11:
 
 
 def c11_f7(case):
-    """signature of the known finding F7: a `T&&` signal parameter whose argument passes a tuple-slicing adaptor
+    """signature of the known finding F8: a `T&&` signal parameter whose argument passes a tuple-slicing adaptor
     (bind/hide) below a forwarding call operator (there `T_arg` is deduced as `X` and std::tuple<X> move-constructs)"""
     if "r" not in case["sig"]:
         return False
